@@ -22,6 +22,15 @@ if w.get("op") == "two-drivers":
 
     d1 = D("sh", nprocs=2, memory=111, envars={"VAR": "one"}, check_exe=True)
     d2 = D("ls", nprocs=8, memory=222, envars={"VAR": "two"}, check_exe=True)
+    # a driver that defines a variable the next one does not define, and one without any environment
+    d3 = D("sh", nprocs=1, memory=1, envars={"ONLY3": "x"}, check_exe=True)
+    d4 = D("sh", nprocs=1, memory=1, envars=None, check_exe=True)
+    d5 = D("sh", nprocs=1, memory=1, envars={"ONLY5": "y"}, check_exe=True)
+    for rnd in range(2):
+        for d, keys in ((d3, {"ONLY3"}), (d4, set()), (d5, {"ONLY5"})):
+            got = set((d.task.prepare(object()).envars or {}).keys())
+            if got != keys:
+                bad.append(f"driver with environment {sorted(keys)} prepared a job with environment {sorted(got)} (leaked from another driver instance)")
     for rnd in range(2):
         for d, n, v in ((d1, 2, "one"), (d2, 8, "two")):
             inp = d.task.prepare(object())
